@@ -3,7 +3,8 @@
 Decided at the level of the Miller loop's shape (see checks/miller.py for the model): for every list of n affine and m prepared pairs
 (n, m in {0,1,2} quick, {0..3} thorough), with the identity flag of every G1/G2 element symbolic and every prepared pair's private cursor
 holding garbage on entry, the accumulator's exponent map after miller_loop equals the sum, over the pairs with two finite members, of the
-single-pair textbook maps (pairs with an identity member contribute nothing, wherever they stand), and is conjugated once.
+single-pair textbook maps (pairs with an identity member contribute nothing, wherever they stand), and is conjugated exactly when the single
+plain pairing's is (that it must be, x being negative, is C01's business).
 G2Prepared::prepare emits exactly the 68 coefficient triples the loop consumes, in that order (= num_coeffs = coeffs[68] of the C header),
 and records the identity flag.  pairing / pairing_product apply final_exponentiation once to the Miller value, in place.
 The final exponentiation is a group homomorphism (C01.3), so equality of Miller exponent maps gives equality of pairing products.
@@ -67,9 +68,31 @@ def check_acc(I, path, acc, desc, flags, key, what):
         raise Violation(key + ":miller-value", "%s: the Miller value is not the product of the single-pair values of the finite pairs %r (flags %r): "
                         "wrong/missing factors %s, unexpected factors %s" % (what, finite, {k: v for k, v in vals.items()}, missing, extra),
                         {"finite_pairs": finite, "flags": {k: v for k, v in vals.items()}})
-    if not acc.conj:
-        raise Violation(key + ":conjugation", "%s: the Miller value is not conjugated (x is negative)" % what, {})
+    ref = reference_conjugation()
+    if finite and acc.conj != ref:
+        raise Violation(key + ":conjugation", "%s: the Miller value is %sconjugated, that of the single plain pairing miller_loop(G1Affine, G2Affine) is %s"
+                        % (what, "" if acc.conj else "not ", "conjugated" if ref else "not"), {})
     return len(finite)
+
+
+_REF = {}
+
+
+def reference_conjugation():
+    """whether the single plain pairing (the reference every other form must agree with) conjugates its Miller value; C01 decides that it must
+    (x is negative), C08 only needs every form to do the same"""
+    if "conj" not in _REF:
+        P = miller.prog()
+        I = eir.Interp(P)
+        miller.install(I)
+        fname = P.find1(B + r"miller_loop\(" + B + r"Fq12&, " + B + r"G1Affine const&, " + B + r"G2Affine const&\)")
+        res = Obj("result", 576, "arg", 16)
+        I.call_named(fname, [Ptr(res, 0), Ptr(miller.g1_obj("P", 0), 0), Ptr(miller.g2_obj("Q", 0), 0)])
+        c = res.cells.get(0)
+        if c is None or not isinstance(c[1], Acc):
+            raise Inconclusive("the single plain pairing produced no Miller value")
+        _REF["conj"] = c[1].conj
+    return _REF["conj"]
 
 
 def ob_multi(n, m):
